@@ -90,8 +90,9 @@ def apalache(report):
 def run(prop, tier):
     report = Report(prop, tier)
     max_ops = 2 if tier == "quick" else 3
-    # 1. design level
-    st = tlc.run("MC_C14", cfg=f"MC_C14_{tier}.cfg", dump=True)
+    # 1. design level (both tiers explore histories of up to 3 operations; the quick tier replays those of up to 2
+    #    and, of the 3-operation ones, the "return" histories A B A -- a rule used again after another one)
+    st = tlc.run("MC_C14", cfg="MC_C14_thorough.cfg", dump=True)
     report.add_tlc(st, f"MC_C14 {tier}")
     if st["violated"]:
         raise MachineryError(f"MC_C14 violated: {st['violated']}")
@@ -99,7 +100,9 @@ def run(prop, tier):
     for s in tlc.read_dump(st["dump"]):
         h = s["hist"]
         if h and len(h) % 2 == 0 and not s["pending"].get("__set__"):
-            hists.add(tuple(e[1] for e in h[::2]))
+            hh = tuple(e[1] for e in h[::2])
+            if len(hh) <= max_ops or (len(hh) == 3 and hh[0] == hh[2] and hh[0] != hh[1]):
+                hists.add(hh)
     tlc.cleanup(st)
     ctl = tlc.run("MC_C14", cfg="MC_C14_control.cfg")
     report.add_tlc(ctl, "MC_C14 control (Atomic = FALSE must fail)")
@@ -155,7 +158,7 @@ def run(prop, tier):
         for v in dict.fromkeys(variants):
             histories.append([[rid[r], LI[i]] for r, i in zip(h, v)])
             hist_keys.append(list(zip(h, v)))
-    obs = matchpipe.drive({"rules": job_rules, "listings": listings, "histories": histories}, tag="c14h")
+    obs = matchpipe.drive({"rules": job_rules, "listings": listings, "histories": histories, "repeat": True}, tag="c14h")
     # 3. fresh-process oracle: each operation alone
     ops = sorted({(r, i) for hk in hist_keys for (r, i) in hk})
     fresh_obs = matchpipe.drive({"rules": job_rules, "listings": listings,
@@ -173,7 +176,10 @@ def run(prop, tier):
         tr = []
         for (r, i), e in zip(hk, ho["events"]):
             g = e.get("g") or {"mfm": "None", "ofm": "None", "style": "None", "range": [], "sections": []}
+            first = {"stream": e.get("stream", ""), "LAT": e.get("res", {}).get("LAT")}
             tr.append({"rule": r, "input": i, "outcome": e["outcome"], "g": g,
+                       # the same MasterOfPuppets object asked a second time (stream, all matches)
+                       "res1": json.dumps(first, sort_keys=True), "res2": json.dumps(e.get("again", first), sort_keys=True),
                        "res": json.dumps(digest(e), sort_keys=True),
                        "fresh": json.dumps(digest(fresh[(r, i)]), sort_keys=True)})
         traces.append(tr)
@@ -201,7 +207,7 @@ def run(prop, tier):
     report.cov["evaluations"] = sum(len(t) for t in traces)
     report.cov["traces_validated_against_impl"] = len(traces)
     report.cov["distinct_nontrivial"] = sum(1 for hk in hist_keys if len(hk) >= 2 and len({r for r, _ in hk}) >= 2)
-    report.cov["rule"] = ("histories = every sequence of <= MaxOps complete operations over the 9 rule documents of "
+    report.cov["rule"] = ("histories = every sequence of <= MaxOps complete operations (quick: <= 2, plus every A B A) over the rule documents of "
                           "spec/MC_C14.tla (TLC's reachable states), each replayed in one real process, plus a variant on a "
                           "binary input; non-trivial = at least two operations with different rules")
     report.cov["exhaustive"] = True
